@@ -17,7 +17,7 @@ RULE = ('strings: all strings of length <= 3 (quick) / <= 4 (thorough) over {a, 
         'integers of 1-30 digits, leading zeros, decimals; identifier paths of 1-4 parts x {plain, back-quoted, dot/space/keyword/'
         'digits-first}; variables; both directions (parse, print); non-trivial = value contains a quote, backslash, dot, keyword '
         'or non-ASCII character; distinct by (direction, kind, spelling, value, dialect)')
-RULE += '; bare words that begin or end with a keyword of any lexer; also: CR/LF/control/zero-width characters in literals and names, blank-edged names, names identified by a case mapping (both orders in one process), 17-digit and exponent-range decimals read back by the library'
+RULE += '; strings spelled like keywords / numbers / parameters, string literals as option values (USING, PARAMETERS, lists, objects); bare words that begin or end with a keyword of any lexer; also: CR/LF/control/zero-width characters in literals and names, blank-edged names, names identified by a case mapping (both orders in one process), 17-digit and exponent-range decimals read back by the library'
 ASSUMPTIONS = ['mindsdb dialect: doubled quote -> one quote, \\\' \\" \\\\ -> the escaped character; other backslash pairs are not judged',
                'mysql/sqlite dialects of this library: only the standard doubled-quote rule is demanded',
                'exponent notation (1e3) is outside "integers/decimals" and not judged',
@@ -33,6 +33,19 @@ STR_POSITIONS = {
     'insert': ('INSERT INTO t (a) VALUES ({L})', lambda t: t.values[0][0]),
     'func': ('SELECT f({L})', lambda t: t.targets[0].args[0]),
 }
+# string literals as option values (mindsdb dialect): kept as plain Python strings in dicts / lists, not as Constant nodes
+OPTION_POSITIONS = {
+    'using-create-model': ('CREATE MODEL proj.m PREDICT y USING engine = \'e\', k = {L}', lambda t: t.using['k']),
+    'using-select': ('SELECT * FROM proj.m USING k = {L}', lambda t: t.using['k']),
+    'using-list': ('CREATE MODEL proj.m PREDICT y USING k = [{L}, 1]', lambda t: t.using['k'][0]),
+    'using-object': ('CREATE MODEL proj.m PREDICT y USING k = {{"j": {L}}}', lambda t: t.using['k']['j']),
+    'database-parameters': ('CREATE DATABASE d WITH ENGINE = \'x\', PARAMETERS = {{"k": {L}}}', lambda t: t.parameters['k']),
+    'agent-using': ('CREATE AGENT a USING model = \'m\', k = {L}', lambda t: t.params['k']),
+}
+STR_POSITIONS.update(OPTION_POSITIONS)
+# strings spelled like tokens of another kind (keywords, numbers, parameters, names, comments)
+LOOKALIKES = ['null', 'NULL', 'Null', 'true', 'TRUE', 'false', 'False', '1', '1.5', '-1', '1e5', '007', 'select', 'latest', 'LATEST', '?', '*', '@v', 'a.b', '`a`',
+              '--', '/*x*/', '0x10', 'NaN', 'inf', 'None', 'default', 'current_date', 'interval 1 day', 'a, b', '[1]', '{"a": 1}', 'DATE', "it's null"]
 
 
 def floors(tier):
@@ -157,6 +170,8 @@ def shrink(v, fails, sig_of, explained):
 # ---------------------------------------------------------------------------------------------
 
 def node_value(n):
+    if n is None or isinstance(n, (str, bool, int, float)):
+        return n                # option values are plain Python values
     cls = type(n).__name__
     if cls == 'Constant':
         return n.value
@@ -239,7 +254,9 @@ def run_shard(ctx):
     pool = ALPHA * 3 + ['b', 'Z', '0', ';', ':', '-', '/', '*', '\n', '\t', '\r', '漢', '🙂', 'ß', '.', ',', '(', ')', '`', '@', '?']
     for _ in range(400 if tier == 'quick' else 4000):
         values.append(''.join(r.choice(pool) for _ in range(r.randint(3, 40 if r.random() < 0.2 else 8))))
-    positions = list(STR_POSITIONS)
+    values += LOOKALIKES
+    positions = [p_ for p_ in STR_POSITIONS if p_ not in OPTION_POSITIONS]
+    opt_positions = list(OPTION_POSITIONS)
     idx = -1
     # ---- strings, parse direction -------------------------------------------------------------
     for vi, v in enumerate(values):
@@ -257,6 +274,10 @@ def run_shard(ctx):
                     continue
                 pos = positions[(vi + idx) % len(positions)] if len(v) > 1 else positions[idx % len(positions)]
                 plist = positions if len(v) <= 1 else [pos]
+                if v in LOOKALIKES:
+                    plist = positions + (opt_positions if dialect == 'mindsdb' else [])
+                elif dialect == 'mindsdb' and style != 'dq-doubled':
+                    plist = plist + [opt_positions[(vi + idx) % len(opt_positions)]]
                 for p in plist:
                     acc.ev()
                     acc.count('parse_checked')
@@ -464,11 +485,13 @@ def run_identifiers(ctx, idx):
     # plain words that merely begin or end with a keyword of one of the lexers (`selected`, `order_id`, `my_from`, `in1`): one name
     kws = sorted({n.lower() for L in monitors.lexer_classes().values() for n in L.tokens if re.fullmatch(r'[A-Za-z]+', n)})
     affix = [lambda w: w + 'ed', lambda w: w + '_id', lambda w: 'x' + w, lambda w: 'my_' + w, lambda w: w + '1', lambda w: '_' + w, lambda w: w + w,
-             lambda w: w.upper() + 'x', lambda w: w + 's', lambda w: w.capitalize() + 'Name']
-    nforms = 2 if ctx.tier == 'quick' else len(affix)
+             lambda w: w.upper() + 'x', lambda w: w + 's', lambda w: w.capitalize() + 'Name',
+             # characters that a name may hold but that end a word for the lexers' keyword patterns
+             lambda w: w + '$date', lambda w: w + '$', lambda w: '$' + w, lambda w: 'x$' + w, lambda w: w + 'é', lambda w: 'é' + w, lambda w: w + '$1']
+    nforms = 4 if ctx.tier == 'quick' else len(affix)
     for wi, w in enumerate(kws):
         for k in range(nforms):
-            word = affix[(wi + k * 3) % len(affix)](w)
+            word = affix[(wi + k * 5) % len(affix)](w)
             if word.lower() not in kws:
                 paths.append([word] if (wi + k) % 3 else ['t', word])
     ID_POS = {
